@@ -10,7 +10,7 @@
    c = log marginal likelihood, whatever the draw.                                           *)
 From Coq Require Import QArith Reals List Lra Lia Qreals.
 Import ListNotations.
-From TT Require Import Num NumR NumI ParamI M_vi P_vi P_vi_param.
+From TT Require Import Num NumR NumI ParamI M_vi P_vi P_vi_param P_vi_mvn.
 Open Scope R_scope.
 
 (* ---------------------------------------------------------------- tightness of each objective *)
@@ -155,6 +155,65 @@ Theorem bayes_constant_lognormal_normal_exp : forall k m0 s0 sigma m1 s1 xs u,
   lnn_lp NumR k m0 s0 sigma xs u - nn_lq NumR k m1 s1 u = nn_logml NumR k m0 s0 sigma m1 s1 xs.
 Proof. exact bayes_constant_lnn_l. Qed.
 Print Assumptions bayes_constant_lognormal_normal_exp.
+
+(* ---------------------------------------------------------------- multivariate pairs (proof/P_vi_mvn.v; 2 x 2
+   symmetric matrices [Sym2 a b d], determinant / inverse / quadratic form written out; [spd2]: a > 0, det > 0).
+   Bivariate normal prior N(m0, S0) on the mean, one observation x ~ N(mu, S), S FULL symmetric positive definite:
+   with the closed-form posterior N(post_mean, post_cov), ln p(x|mu) + ln p(mu) - ln post(mu) is the log marginal
+   N(x; m0, S0 + S) for every mu. *)
+Theorem bayes_constant_bivariate_normal : forall (m0 : vec2) (S0 S : sym2) (x : vec2),
+  spd2 S0 -> spd2 S ->
+  forall mu1 mu2 : R,
+    lmvn (mu1, mu2) S x + lmvn m0 S0 (mu1, mu2)
+    - lmvn (post_mean m0 S0 S x) (post_cov S0 S) (mu1, mu2)
+    = lmvn m0 (add2 S0 S) x.
+Proof. exact bayes_constant_mvn2. Qed.
+Print Assumptions bayes_constant_bivariate_normal.
+(* ... with independent Normal(mu_j, sg_j) likelihood terms (the form the harness's "mvn" pair uses) *)
+Theorem bayes_constant_bivariate_normal_independent_noise : forall (m0 : vec2) (S0 : sym2) (sg1 sg2 x1 x2 : R),
+  spd2 S0 -> 0 < sg1 -> 0 < sg2 ->
+  forall mu1 mu2 : R,
+    lnorm mu1 sg1 x1 + lnorm mu2 sg2 x2 + lmvn m0 S0 (mu1, mu2)
+    - lmvn (post_mean m0 S0 (diag2 sg1 sg2) (x1, x2)) (post_cov S0 (diag2 sg1 sg2)) (mu1, mu2)
+    = lmvn m0 (add2 S0 (diag2 sg1 sg2)) (x1, x2).
+Proof. exact bayes_constant_mvn2_diag. Qed.
+Print Assumptions bayes_constant_bivariate_normal_independent_noise.
+(* the posterior covariance is a covariance, and its log-determinant is the one the log marginal needs *)
+Theorem bivariate_normal_posterior_is_spd : forall S0 S, spd2 S0 -> spd2 S -> spd2 (post_cov S0 S).
+Proof. exact mvn2_posterior_is_spd. Qed.
+Print Assumptions bivariate_normal_posterior_is_spd.
+
+(* theta = exp(cumsum z) (the shipped CumSumExpTransform, d = 2), independent LogNormal(m_i, sp_i) priors on theta_i,
+   the transform's log-Jacobian c1 + c2 in the joint, Normal(z_j, sg_j) observations y_j: the prior terms plus the
+   Jacobian are Gaussian in (c1, c2) ... *)
+Theorem cumsumexp_prior_with_jacobian_is_gaussian : forall m1 sp1 m2 sp2 c1 c2 : R,
+  llognorm m1 sp1 (exp c1) + llognorm m2 sp2 (exp c2) + (c1 + c2)
+  = lnorm m1 sp1 c1 + lnorm m2 sp2 c2.
+Proof. exact cse_prior_gaussian. Qed.
+Print Assumptions cumsumexp_prior_with_jacobian_is_gaussian.
+(* ... and with q the bivariate normal of precision L^T diag(1/sp^2) L + diag(1/sg^2) the difference
+   ln p(y, z) - ln q(z) is the same number for every z *)
+Theorem bayes_constant_cumsumexp : forall m1 m2 sp1 sp2 sg1 sg2 y1 y2 : R,
+  0 < sp1 -> 0 < sp2 -> 0 < sg1 -> 0 < sg2 ->
+  forall z1 z2 : R,
+    (lnorm z1 sg1 y1 + lnorm z2 sg2 y2
+     + (llognorm m1 sp1 (exp z1) + llognorm m2 sp2 (exp (z1 + z2)) + (z1 + (z1 + z2))))
+    - lmvn (cse_mean m1 m2 sp1 sp2 sg1 sg2 y1 y2) (cse_cov sp1 sp2 sg1 sg2) (z1, z2)
+    = cse_logml m1 m2 sp1 sp2 sg1 sg2 y1 y2.
+Proof. exact bayes_constant_cse_joint. Qed.
+Print Assumptions bayes_constant_cumsumexp.
+(* hence every objective returns the log marginal on every list / table of draws *)
+Theorem exact_bivariate_normal : forall (m0 : vec2) (S0 S : sym2) (x : vec2),
+  spd2 S0 -> spd2 S ->
+  (forall zs : list vec2, zs <> [] ->
+     all_exact (mvn_logml m0 S0 S x) (map (mvn_lp m0 S0 S x) zs) (map (mvn_lq m0 S0 S x) zs)) /\
+  (forall zss : list (list vec2), zss <> [] -> Forall (fun r => r <> []) zss ->
+     all_exact2 (mvn_logml m0 S0 S x)
+                (map (map (mvn_lp m0 S0 S x)) zss) (map (map (mvn_lq m0 S0 S x)) zss)).
+Proof. exact exact_mvn2. Qed.
+Print Assumptions exact_bivariate_normal.
+Example C14_example_bivariate := mvn2_example_post_cov.
+Example C14_example_cumsumexp := cse_example_prec.
 
 (* ---------------------------------------------------------------- objective o density:
    for ANY latent type and ANY pair of log densities with constant difference c, every objective
